@@ -1,17 +1,25 @@
 /* C17.b / C17.c -- version_edit.c: ldb_edit_export / ldb_edit_import against
  * an independent LevelDB MANIFEST-record reference (edit_ref.h).
  *
- * VP_MODE 0 (b): a symbolic edit (each scalar field present/absent with a
- *   symbolic 64-bit value, VP_NF new files, VP_ND deleted files, VP_NC compact
- *   pointers, key lengths VP_KS / VP_KL, comparator name of VP_CN bytes; all
- *   counts concrete per query, all contents symbolic) is built through the
- *   real ldb_edit_* setters, exported, and
- *     - the bytes equal the reference encoder's bytes,
- *     - the reference decoder accepts them and yields the original fields,
- *     - ldb_edit_import accepts them and yields the original fields.
- * VP_MODE 1 (c): ldb_edit_import on VP_N arbitrary bytes (optionally with the
- *   first byte fixed to VP_TAG so that long records are reached) accepts iff
- *   the reference decoder does, and then holds exactly the reference's fields.
+ * A symbolic edit "o" (scalar fields present per VP_MASK / symbolic per
+ * VP_SYMP, VP_NF new files, VP_ND deleted files, VP_NC compact pointers, key
+ * lengths VP_KS / VP_KL, comparator name of VP_CN bytes; counts concrete per
+ * query; keys symbolic; numbers and levels fully symbolic for the fields in
+ * VP_FOCUS, concrete representatives of varint length class VP_ROT otherwise)
+ * is used in four ways (the round trip is the composition of 0, 2 and 3):
+ * VP_MODE 0 (b.export): built through the real ldb_edit_* setters, exported
+ *   with ldb_edit_export; the bytes equal the reference encoder's bytes
+ *   (tags 1,2,9,3,4,5,6,7 in lcdb's emission order).
+ * VP_MODE 2 (b.import): ldb_edit_import of the reference encoder's bytes
+ *   (== lcdb's own export bytes by mode 0) accepts and yields exactly o.
+ * VP_MODE 3 (b.refdec): the independent reference decoder accepts the same
+ *   bytes and yields exactly o.
+ * VP_MODE 4 (b.roundtrip): export -> reference decoder and export ->
+ *   ldb_edit_import in one query (concrete numbers only).
+ * VP_MODE 1 (c): ldb_edit_import on VP_N arbitrary bytes (optionally first
+ *   byte fixed to VP_TAG, at most VP_K fields per the reference) accepts iff
+ *   the reference decoder does (level < 7, internal keys >= 8 bytes, known
+ *   tags, complete fields) and then holds exactly the reference's fields.
  */
 #include "vp.h"
 #include "vp_vector_inc.h" /* real util/vector.c, typed item arrays */
